@@ -3,4 +3,5 @@ pub mod compare;
 pub mod ext;
 pub mod lang;
 pub mod nodelist;
+pub mod robust;
 pub mod slices;
